@@ -181,6 +181,12 @@ func BuildXMP(items []XItem, rng *rand.Rand, junk int, arrays bool) XMPPacket {
 			return "\n   "
 		case "sp3":
 			return "   "
+		case "run126":
+			return strings.Repeat(" ", 126)
+		case "run127":
+			return strings.Repeat(" ", 126) + "\n"
+		case "run300":
+			return strings.Repeat(" ", 150) + "\n" + strings.Repeat(" ", 149)
 		}
 		return " "
 	}
